@@ -50,12 +50,6 @@ example :
       = .error (.parser "Failed to parse union node") :=
   ⟨rfl, rfl, rfl, rfl⟩
 
-/-- **parse_total_union.** `UnionNode` replays its buffered events once per candidate; over a tree
-this is one more structural descent into the children per candidate class, so the extended parser
-is again a total function (accepted without `partial`, no fuel): it cannot hang. -/
-theorem parse_total_union (e : BEnv) (Γ : Ctx) (cfg : ParserConfig) (c : ClassId) (t : Tree) :
-    ∃ r, parseRootU e Γ cfg c t = r := ⟨_, rfl⟩
-
 /-- **union_model_extends_parse.** The parser with `UnionNode` is a conservative extension of the
 one the other properties reason about: for every universe, configuration, class and tree, either
 the old model stops with `unsupported "union node"`, or both give the same result (same value,
